@@ -80,6 +80,7 @@ structure State where
   master : Nat := 0                  -- ts-meta: MasterPtID
   peers : List Nat := []             -- ts-meta: Peers (all Slave)
   alive : List Bool := []            -- ts-meta: pt Online / data node alive
+  health : Bool := true              -- ts-meta: ReplicaGroup.Status is Health (else SubHealth)
   acked : List (Nat × Bool) := []    -- answers given to writers: (ghost uid, ok)
   ghostApplied : List (Nat × Nat) := []   -- ghost: (node, index) of every successful apply by the commit loop
   nextUid : Nat := 1
@@ -194,6 +195,7 @@ inductive Op where
   | metaDown (n : Nat) | metaUp (n : Nat)
   | elect                                       -- ts-meta: electRgMaster after the master failed
   | setMaster (m : Nat)                         -- ts-meta: GetNewRg + UpdateReplication
+  | coordWrite (c : Cmd) (size : Nat)           -- coordinator: route one request (writeRowToShard), propose at the target store
 deriving Repr, Inhabited
 
 def majority (s : State) (q : List Nat) : Bool := 2 * q.length > s.nodes.length
@@ -423,11 +425,39 @@ def doRaftLead (s : State) (l : Nat) : Option State :=
     else none
   | none => none
 
-def doMetaDown (s : State) (n : Nat) : Option State :=
-  if n < s.alive.length then some { s with alive := s.alive.set n false } else none
+def onlineCount (alive : List Bool) : Nat := (alive.filter id).length
 
+/-- updatePtViewStatus(Offline) + ReplicaGroup.nextHealth: Health → SubHealth once no more than
+half (integer division) of the partitions are online -/
+def doMetaDown (s : State) (n : Nat) : Option State :=
+  if n < s.alive.length then
+    let alive := s.alive.set n false
+    some { s with alive := alive,
+                  health := if s.health && decide (onlineCount alive ≤ s.alive.length / 2) then false else s.health }
+  else none
+
+/-- updatePtStatus(Online) + ReplicaGroup.nextSubHealth: SubHealth → Health once more than half are online -/
 def doMetaUp (s : State) (n : Nat) : Option State :=
-  if n < s.alive.length then some { s with alive := s.alive.set n true } else none
+  if n < s.alive.length then
+    let alive := s.alive.set n true
+    some { s with alive := alive,
+                  health := if !s.health && decide (onlineCount alive > s.alive.length / 2) then true else s.health }
+  else none
+
+/-- Client.getAliveShardsForRepDB: the partition whose shard requests are mapped to - the master
+while the group is Health, otherwise the first partition that is online -/
+def route (s : State) : Option Nat :=
+  (List.range s.alive.length).find? (fun i => if s.health then i == s.master else s.alive.getD i false)
+
+/-- PointsWriter.writeRowToShard for one request: send it to the store that owns the target
+partition; a store that cannot be reached gives a retryable error (nothing changes, the loop asks
+again until its time-out) -/
+def doCoordWrite (s : State) (c : Cmd) (size : Nat) : Option State :=
+  match route s with
+  | some p => match doPropose s p c size with
+    | some s' => some s'
+    | none => some s
+  | none => some s
 
 def doElect (s : State)  : Option State :=
   -- cluster_manager.processReplication / electRgMaster: the first Slave peer whose pt is Online
@@ -463,6 +493,7 @@ def step (s : State) : Op → Option State
   | .metaUp n => doMetaUp s n
   | .elect => doElect s
   | .setMaster m => doSetMaster s m
+  | .coordWrite c size => doCoordWrite s c size
 
 /-- the conf-change entries of the bootstrap, one per size -/
 def bootLog (s : State) : List Nat → State
